@@ -48,10 +48,11 @@ pub fn check_source(out: &mut Out, names: &mut Ser, src: &str, origin: &str) {
     out.stat("stage:parsed");
     if !out.begin(src) { out.stat("skipped-known-abort"); return; }
     let hc0 = holecopy_events();
+    let hd0 = holedepth_events();
     let (mut tctx, mut dctx) = (vec![], vec![]);
     let c = check_term(names, src, &term, &mut tctx, &mut dctx);
     out.case(&c.op, &c.answer);
-    if let Some(m) = &c.panic { out.hit("C14", "type_check-panic", src, m); return; }
+    if let Some(m) = &c.panic { out.hit("C14", "type_check-panic", src, &format!("{m} holedepth-events={}", holedepth_events() - hd0)); return; }
     if !c.ctx_restored { out.hit("C18", "contexts-not-restored", src, &c.answer); }
     let Some((elab, _ty)) = c.accepted else {
         out.stat("stage:rejected");
@@ -109,7 +110,7 @@ pub fn run(out: &mut Out, tier: &str, seed: u64) {
         return;
     }
     // corpus first
-    if let Ok(rd) = std::fs::read_dir("/verif/corpus") {
+    if let Ok(rd) = std::fs::read_dir(format!("{}/corpus", crate::out::verif_root())) {
         let mut files: Vec<_> = rd.filter_map(|e| e.ok()).map(|e| e.path()).filter(|p| p.extension().map_or(false, |x| x == "g")).collect();
         files.sort();
         for p in files {
@@ -123,7 +124,7 @@ pub fn run(out: &mut Out, tier: &str, seed: u64) {
     }
     // E-small: every sentence of grammar.y up to a token bound (written by bin/esmall.py)
     let n = if tier == "thorough" { 6 } else { 5 };
-    let path = format!("/verif/build/gen/esmall-{n}.txt");
+    let path = format!("{}/build/gen/esmall-{n}.txt", crate::out::verif_root());
     if let Ok(f) = std::fs::File::open(&path) {
         for line in std::io::BufReader::new(f).lines().map_while(Result::ok) {
             check_source(out, &mut names, &line, "esmall");
